@@ -416,6 +416,9 @@ def check_c04(tier: str, replay_path: Optional[str]) -> int:
     from .common import REPO, Verdicts, import_repo, seed
     import_repo()
     v = Verdicts("C04", tier)
+    if replay_path and json.loads(open(replay_path).read()).get("entry") == "table entry":
+        _table_entry_probe(v, "C04")
+        return v.finish({"states": 1, "transitions": 1, "traces_validated_against_impl": 1, "samples": []}, ["replay of the table entry probe"])
     if replay_path and json.loads(open(replay_path).read()).get("machine") == "Compu":
         _c04_compu(v, tier, json.loads(open(replay_path).read())["record"]["cm"])
         return v.finish({"states": 1, "transitions": 1, "traces_validated_against_impl": 1, "samples": []}, ["replay of one configuration"])
@@ -450,6 +453,7 @@ def check_c04(tier: str, replay_path: Optional[str]) -> int:
         stats[name] = st
     print(f"[C04] replay: {stats}", flush=True)
     compu_stats = _c04_compu(v, tier)
+    compu_stats.update(_table_entry_probe(v, "C04"))
     s0 = stats["c"]
     if s0["accepted"] == 0 or s0["rejected_lib"] == 0 or s0["wrong_type_cases"] == 0:
         raise tlc.MachineryError(f"vacuity: {s0}")
@@ -489,6 +493,9 @@ def check(prop: str, tier: str, replay_path: Optional[str]) -> int:
     from .common import Verdicts, import_repo, seed
     import_repo()
     v = Verdicts(prop, tier)
+    if replay_path and json.loads(open(replay_path).read()).get("entry") == "table entry":
+        _table_entry_probe(v, prop)
+        return v.finish({"states": 1, "transitions": 1, "traces_validated_against_impl": 1, "samples": []}, ["replay of the table entry probe"])
     if replay_path and json.loads(open(replay_path).read()).get("entry") == "system parameters":
         _system_parameters(v, prop)
         return v.finish({"states": 1, "transitions": 1, "traces_validated_against_impl": 1, "samples": []}, ["replay of the system parameters"])
@@ -533,6 +540,8 @@ def check(prop: str, tier: str, replay_path: Optional[str]) -> int:
         extra["layers"] = _c05_layers(v, tier, seed())
     if prop in ("C01", "C08"):
         extra["system_parameters"] = _system_parameters(v, prop)
+    if prop == "C05":
+        extra["table_entry"] = _table_entry_probe(v, prop)
     for (what, d) in divs[:5]:
         v.diverge(what, {"detail": json.loads(json.dumps(d, default=str))})
     ncases = sum(len(r["cases"]) for r in recs)
@@ -649,6 +658,41 @@ def _system_parameters(v: Any, prop: str) -> Dict[str, int]:
             dec2 = rq.decode(bytes(rq.encode(year=1999, second=59)))
             if (dec2["year"], dec2["second"]) != (1999, 59):
                 v.fail("round_trip", {**case, "detail": {"supplied": {"year": 1999, "second": 59}, "decoded": [dec2["year"], dec2["second"]]}})
+    return st
+
+
+def _table_entry_probe(v: Any, prop: str) -> Dict[str, int]:
+    """TABLE-ENTRY parameters are outside the codec reference (the library does not implement them); what must still hold:
+    encoding / decoding a description that has one ends in the library's error types (C04 / C05), also on the layer."""
+    from odxtools.exceptions import OdxError
+    from . import odxgen as og
+    lay = og.Layer("BASE-VARIANT", "BV", "BV")
+    lay.dops.append(og.dop("D.u8", "u8", og.dct_standard("A_UINT32", 8)))
+    lay.tables.append(og.table("T.1", "tab", "D.u8", [("T.r1", "row1", 1, None, "D.u8")]))
+    te = og.param("TABLE-ENTRY", "e", body="<TARGET>KEY</TARGET>" + og.ref("TABLE-ROW-REF", "T.r1"))
+    lay.requests.append(og.request("RQ.e", "RQe", [og.p_const8("sid", 0x22, bytepos=0), te]))
+    lay.requests.append(og.request("RQ.o", "RQo", [og.p_const8("sid", 0x22, bytepos=0), og.p_value("p", "D.u8")]))
+    lay.diag_comms.append(og.service("DC.e", "svce", "RQ.e"))
+    lay.diag_comms.append(og.service("DC.o", "svco", "RQ.o"))
+    st = {"table_entry_calls": 0}
+    case = {"machine": "Codec", "entry": "table entry", "ps": [], "rq": [], "outside_mask": False, "dop_kinds": ["table entry"]}
+    try:
+        bv = og.load([og.container("DLC", "DLC", [lay])]).base_variants[0]
+    except Exception as e:  # noqa: BLE001
+        v.fail("description_does_not_load", {**case, "detail": {"exc": f"{type(e).__name__}: {e}"[:200]}})
+        return st
+    r = bv.diag_layer_raw.requests.RQe
+    calls = [("encode", lambda: r.encode())] if prop == "C04" else \
+        [("decode", lambda: r.decode(b"\x22\x01")), ("decode truncated", lambda: r.decode(b"\x22")),
+         ("layer decode", lambda: bv.decode(b"\x22\x01"))]
+    for (what, f) in calls:
+        st["table_entry_calls"] += 1
+        try:
+            f()
+        except OdxError:
+            pass
+        except Exception as e:  # noqa: BLE001
+            v.fail("foreign_exception", {**case, "exc": type(e).__name__, "detail": {"call": what, "exc": type(e).__name__, "msg": str(e)[:120]}})
     return st
 
 
